@@ -17,12 +17,21 @@ import (
 )
 
 type op struct {
-	Kind string            // init transfer propose vote thaw do lock unlock checkvote trigger nominate tvote revokevote revokenom query supply seal pack
+	Kind string            // init transfer propose vote thaw do lock unlock rawlock rawunlock checkvote trigger nominate tvote revokevote revokenom query supply seal pack
 	By   string            // initiator
 	Via  string            // "" = the user transaction names the method itself; otherwise the forwarding kernel contract
 	Args map[string]string // contract arguments
 	Meta map[string]string // generator annotations
 	Tag  string            // structural class, part of the shape
+}
+
+// auth lists the auth_require entries of the call: the initiator and, for a nomination
+// that the candidate co-signs, the candidate.
+func (o *op) auth() []string {
+	if c := o.Meta["cosigner"]; c != "" && c != o.By {
+		return []string{o.By, c}
+	}
+	return []string{o.By}
 }
 
 func (o *op) viaName() string {
@@ -91,6 +100,10 @@ func (o *op) target() (string, string) {
 		return "$tdpos", "revokeVote"
 	case "revokenom":
 		return "$tdpos", "revokeNominate"
+	case "rawlock":
+		return "$govern_token", "Lock"
+	case "rawunlock":
+		return "$govern_token", "UnLock"
 	}
 	return "", ""
 }
@@ -120,6 +133,23 @@ type genCtx struct {
 	e2e    bool
 	height int64 // FAST: number of sealed snapshots - 1 (tip height); E2E: ledger tip height
 	pool   int   // E2E: transactions waiting for a block
+	// profile of the sequence: 0 mixed, 1 proposal heavy, 2 tdpos heavy, 3 transfer heavy, 4 raw lock primitive
+	profile int
+}
+
+func pickProfile(rng *rand.Rand) int {
+	switch x := rng.Intn(100); {
+	case x < 40:
+		return 0
+	case x < 60:
+		return 1
+	case x < 80:
+		return 2
+	case x < 90:
+		return 3
+	default:
+		return 4
+	}
 }
 
 func (g *genCtx) pick(xs []string) string { return xs[g.rng.Intn(len(xs))] }
@@ -226,9 +256,9 @@ func (g *genCtx) heightArg() (string, string) {
 	h := g.height
 	x := g.rng.Intn(100)
 	switch {
-	case x < 45:
+	case x < 55:
 		return fmt.Sprint(h), "tip"
-	case x < 60:
+	case x < 65:
 		return fmt.Sprint(h - 1), "tip-1"
 	case x < 88:
 		if h >= 2 {
@@ -270,23 +300,39 @@ func (g *genCtx) next() *op {
 		w int
 		f func() *op
 	}
+	// the sequence's profile shifts the mix so that deep scenarios (nominate - block - vote -
+	// block - revoke; propose - votes - tally - trigger) are reached within 60 calls
+	tx, pr, td, bl := 30, 10, 6, 10
+	switch g.profile {
+	case 1: // proposal heavy
+		tx, pr, td, bl = 18, 22, 2, 10
+	case 2: // tdpos heavy
+		tx, pr, td, bl = 16, 3, 18, 22
+	case 3: // transfer heavy
+		tx, pr, td, bl = 50, 6, 4, 8
+	case 4: // the lock primitive itself, called by a TDPoS-named kernel contract with all amounts
+		tx, pr, td, bl = 20, 8, 5, 8
+	}
 	cs := []choice{
-		{30, g.genTransfer},
-		{9, g.genPropose},
-		{10, g.genVote},
-		{4, g.genThaw},
+		{tx, g.genTransfer},
+		{pr * 9 / 10, g.genPropose},
+		{pr, g.genVote},
+		{pr * 4 / 10, g.genThaw},
 		{6, g.genDirectLock},
 		{2, g.genDirectTally},
-		{6, g.genNominate},
-		{6, g.genTVote},
-		{5, g.genRevokeVote},
-		{5, g.genRevokeNom},
+		{td, g.genNominate},
+		{td, g.genTVote},
+		{td, g.genRevokeVote},
+		{td * 5 / 6, g.genRevokeNom},
 		{3, g.genQuery},
 	}
+	if g.profile == 4 {
+		cs = append(cs, choice{30, g.genRawLock})
+	}
 	if g.e2e {
-		cs = append(cs, choice{12, func() *op { return &op{Kind: "pack", Tag: fmt.Sprint(1 + r.Intn(2))} }})
+		cs = append(cs, choice{bl * 12 / 10, func() *op { return &op{Kind: "pack", Tag: fmt.Sprint(1 + r.Intn(2))} }})
 	} else {
-		cs = append(cs, choice{8, g.genDo}, choice{9, func() *op { return &op{Kind: "seal"} }})
+		cs = append(cs, choice{pr * 8 / 10, g.genDo}, choice{bl, func() *op { return &op{Kind: "seal"} }})
 	}
 	tot := 0
 	for _, c := range cs {
@@ -307,25 +353,23 @@ func (g *genCtx) genTransfer() *op {
 	by := g.initiator()
 	var to, tag string
 	hs := g.holders()
+	others := func(xs []string) string {
+		for {
+			if a := g.pick(xs); a != by {
+				return a
+			}
+		}
+	}
 	x := r.Intn(100)
 	switch {
-	case x < 8:
+	case x < 4:
 		to, tag = by, "self"
-	case x < 30 && len(hs) > 0:
-		to, tag = g.pick(hs), "to-lock-holder"
-		if to == by {
-			tag = "self"
-		}
+	case x < 26 && len(hs) > 0 && !(len(hs) == 1 && hs[0] == by):
+		to, tag = others(hs), "to-lock-holder"
 	case x < 72:
-		to, tag = g.pick(mainAddrs), "to-other"
-		if to == by {
-			tag = "self"
-		}
+		to, tag = others(mainAddrs), "to-other"
 	case x < 84:
-		to, tag = g.pick(freshAddrs), "to-fresh-key"
-		if to == by {
-			tag = "self"
-		}
+		to, tag = others(freshAddrs), "to-fresh-key"
 	case x < 96:
 		to, tag = g.pick(namedFresh), "to-fresh-name"
 	default:
@@ -350,6 +394,11 @@ func (g *genCtx) genTransfer() *op {
 	if r.Intn(100) < 2 {
 		delete(o.Args, "to")
 		o.Tag = "no-receiver"
+	}
+	if r.Intn(100) < 5 {
+		// an argument the method has no business reading: the sender is the initiator
+		o.Args["from"] = others(mainAddrs)
+		o.Tag += ":with-from-arg"
 	}
 	return o
 }
@@ -406,8 +455,40 @@ func (g *genCtx) genPropose() *op {
 	} else if new(big.Int).Sub(a.bal, a.locked[ltOrdinary]).Cmp(big.NewInt(1000)) < 0 {
 		tag += "+poor"
 	}
-	return &op{Kind: "propose", By: by, Args: map[string]string{"proposal": proposalJSON(pct, fmt.Sprint(stop), trig, tk)},
+	o := &op{Kind: "propose", By: by, Args: map[string]string{"proposal": proposalJSON(pct, fmt.Sprint(stop), trig, tk)},
 		Meta: map[string]string{"stop": fmt.Sprint(stop), "trig": fmt.Sprint(trig)}, Tag: fmt.Sprintf("%s:pct%s:trig%d", tag, pct, tk)}
+	if r.Intn(100) < 3 {
+		// a proposal document that is well-formed JSON but not a well-formed proposal: must be
+		// refused like any other bad argument
+		var doc map[string]interface{}
+		json.Unmarshal([]byte(o.Args["proposal"]), &doc)
+		class := ""
+		switch r.Intn(4) {
+		case 0:
+			delete(doc, "trigger")
+			class = "no-trigger"
+			o.Meta["trig"] = "0"
+		case 1:
+			doc["args"].(map[string]interface{})["min_vote_percent"] = 51
+			class = "numeric-min-vote-percent"
+		case 2:
+			delete(doc["args"].(map[string]interface{}), "stop_vote_height")
+			class = "no-stop-vote-height"
+		case 3:
+			delete(doc, "args")
+			class = "no-args"
+		}
+		b, _ := json.Marshal(doc)
+		o.Args["proposal"] = string(b)
+		// two structural classes: the trigger is missing / one of the two vote arguments is
+		// missing or not a string
+		o.Meta["malformed"] = "vote-argument-missing-or-not-a-string"
+		if class == "no-trigger" {
+			o.Meta["malformed"] = "proposal-without-trigger"
+		}
+		o.Tag = "malformed:" + class
+	}
+	return o
 }
 
 func (g *genCtx) pickProp() (string, string) {
@@ -531,12 +612,21 @@ func (g *genCtx) tdposAmount(by string) (string, string) {
 func (g *genCtx) genNominate() *op {
 	by := g.initiator()
 	cand, tag := by, "self-candidate"
-	if g.rng.Intn(100) < 12 {
+	meta := map[string]string{}
+	switch x := g.rng.Intn(100); {
+	case x < 10:
 		cand, tag = g.pick(mainAddrs), "other-candidate"
+	case x < 35:
+		// somebody else is nominated and co-signs the transaction
+		cand, tag = g.pick(mainAddrs), "cosigned-candidate"
+		meta["cosigner"] = cand
+		if cand == by {
+			tag = "self-candidate"
+		}
 	}
 	amt, atag := g.tdposAmount(by)
 	h, htag := g.heightArg()
-	return &op{Kind: "nominate", By: by, Args: map[string]string{"candidate": cand, "amount": amt, "height": h}, Tag: tag + ":" + atag + ":" + htag}
+	return &op{Kind: "nominate", By: by, Args: map[string]string{"candidate": cand, "amount": amt, "height": h}, Meta: meta, Tag: tag + ":" + atag + ":" + htag}
 }
 
 func (g *genCtx) candidates() []string {
@@ -629,4 +719,42 @@ func (g *genCtx) genQuery() *op {
 	}
 	a := g.pick(append(append([]string{}, mainAddrs...), freshAddrs...))
 	return &op{Kind: "query", By: g.initiator(), Args: map[string]string{"account": a}}
+}
+
+// rawCaller is a forwarding kernel contract registered under a name Lock / UnLock accept:
+// "$xpos" is what the TDPoS kernel contract is called when chained-BFT is enabled (no such
+// instance exists on the harness nodes). Through it the lock primitive is exercised the
+// way the statement quantifies it: lock / unlock operations with all amounts.
+const rawCaller = "$xpos"
+
+func (g *genCtx) genRawLock() *op {
+	r := g.rng
+	kind := "rawlock"
+	if r.Intn(100) < 50 {
+		kind = "rawunlock"
+	}
+	target := g.pick(mainAddrs)
+	if x := r.Intn(100); x < 10 {
+		target = g.pick(freshAddrs)
+	} else if x < 14 {
+		target = g.pick(namedFresh)
+	}
+	if hs := g.holders(); len(hs) > 0 && kind == "rawunlock" && r.Intn(100) < 60 {
+		target = g.pick(hs)
+	}
+	lt := g.pick([]string{ltOrdinary, ltTdpos})
+	if r.Intn(100) < 5 {
+		lt = "other"
+	}
+	var avail, bal *big.Int
+	if a := g.m.acct(target); a != nil && a.locked[lt] != nil {
+		if kind == "rawlock" {
+			avail, bal = new(big.Int).Sub(a.bal, a.locked[lt]), a.bal
+		} else {
+			avail, bal = new(big.Int).Set(a.locked[lt]), a.bal // "available" to unlock = what is locked
+		}
+	}
+	amt, atag := g.amount(avail, bal)
+	return &op{Kind: kind, By: g.initiator(), Via: rawCaller, Args: map[string]string{"from": target, "amount": amt, "lock_type": lt},
+		Tag: lt + ":" + atag}
 }
